@@ -9,8 +9,8 @@ FIELDS = ["str", "val", "raw_user", "raw_password", "raw_path", "raw_query_strin
 
 
 def run(out, sc, tier, seed):
-    run_quoter_level(out, sc, tier, seed, "C01")
+    run_quoter_level(out, sc, tier, seed, "C01", bounds=({"charcore": 4} if tier == "thorough" else None))
     run_value_machine(out, sc, "C01", tier, fields=FIELDS)
-    n = 12000 if tier == "quick" else 300000
+    n = 12000 if tier == "quick" else 100000
     run_progs(out, sc, "C01", {"gen": "progs", "n": n, "seed": seed, "surrogate_p": 0.1, "fields": FIELDS}, "progs")
     run_harvest(out, sc, "C01")
